@@ -13,8 +13,8 @@ import (
 	"fmt"
 	"time"
 
-	libepic "github.com/scionproto/scion/pkg/experimental/epic"
 	"github.com/scionproto/scion/pkg/addr"
+	libepic "github.com/scionproto/scion/pkg/experimental/epic"
 	"github.com/scionproto/scion/pkg/slayers"
 	"github.com/scionproto/scion/pkg/slayers/path/epic"
 	"github.com/scionproto/scion/router"
@@ -55,12 +55,12 @@ type c13 struct {
 }
 
 type fwdView struct {
-	disp, egress           int
-	slowT, slowC, slowP    int
-	path                   []byte // SCION path bytes of the output
-	epicHdr                []byte
-	rest                   []byte // output without the path header region
-	remote                 string
+	disp, egress        int
+	slowT, slowC, slowP int
+	path                []byte // SCION path bytes of the output
+	epicHdr             []byte
+	rest                []byte // output without the path header region
+	remote              string
 }
 
 func view(res router.VerifR2Result, isEpic bool) fwdView {
